@@ -6,13 +6,13 @@ from .. import lifecycle_common as L
 ID = 'C18'
 MODULES = ['OFModel.Lifecycle', 'OFModel.Lineage']
 RULE = ('real OpenFilterLineage(client=capturing fake) as Filter.emitter on the real Filter.run of scripted filters: every way a run can end '
-        '(exit() / exit(exc) / exception / stop event / obeyed or ignored exit message at init, setup, recv/process/send of iteration k, '
+        '(exit() / exit(exc) incl. exit(reason, SystemExit(1)) / exception / KeyboardInterrupt / stop event / obeyed or ignored exit message at init, setup, recv/process/send of iteration k, '
         'shutdown, fini; failing constructor, MQ, send_exit_msg; exit_after; script exhaustion) x policies x heartbeat schedules: the heartbeat '
         'thread is gated so that it takes exactly sched[i] steps before the i-th emitter call of the main thread (run length vs heartbeat '
         'interval = the schedule), plus runs with a free-running 1 ms heartbeat thread (compared modulo the number of RUNNING events). '
         'non-trivial = START was emitted')
 ASSUMPTIONS = ['one emitter object per run (the run id is created with the OpenFilterLineage object; two runs in one process sharing Filter.emitter share the id)',
-               '"ended cleanly" is read as: Filter.run returned normally (C08: returns for clean exits, raises for errors); a stop event (signal) and an obeyed, eaten propagated error therefore end in COMPLETE, an exception leaving run() in ABORT',
+               '"ended cleanly" is read as: Filter.run returned normally (C08: returns for clean exits, raises for errors); a stop event (signal) and an obeyed, eaten propagated error therefore end in COMPLETE; anything leaving run() - an Exception, a KeyboardInterrupt, exit(reason, SystemExit(n)) - in ABORT',
                'a run whose constructor fails, or whose subclass init() fails before Filter.init() is reached, emits nothing (no START): stated boundary',
                'heartbeat steps are atomic with respect to emit_stop (both hold OpenFilterLineage._lock in the patched code); a killed process emits nothing',
                'event payloads (facets, job name, producer, timestamps) are not compared']
@@ -114,7 +114,7 @@ def oracle(case, o):
     E = o['events']; s = case['script']; out = []
     end = ending(case, o)
     V = lambda clause, what: out.append((f'{clause}:{end}', f'{what}: {" ".join(E) or "(nothing)"}  [{o["outcome"]}]'))
-    no_start_ok = bool(s.get('ctor_raises')) or s.get('init_pre', 'ret') in ('raise', 'exit', 'exit:other', 'exit:propagate')
+    no_start_ok = bool(s.get('ctor_raises')) or s.get('init_pre', 'ret') in ('raise', 'interrupt', 'exit', 'exit:other', 'exit:propagate', 'exit:base')
     if not E:
         if not no_start_ok: V('no-events', 'nothing emitted')
         return out
